@@ -440,7 +440,7 @@ def flush_chain(repo, col):
              ("ShardedScale.close", "shard_dict"),
              ("Shard.close", "minishard_dict")]
     for qn, attr in sites:
-        fn = repo.func("sharded_file_accessor", qn)
+        fn = repo.func("sharded_file_accessor", qn, inline=True)
         loop = _closing_loop(fn, attr)
         ok = loop is not None
         col.add(rule, fn, "for x in self.%s: x.close()" % attr, ok,
@@ -527,7 +527,7 @@ def _after(fnode, a, b):
 # ---------------------------------------------------------------------
 def shard_index_last(repo, col):
     rule = "E-ORDER.index-last"
-    fn = repo.func("sharded_file_accessor", "Shard.close")
+    fn = repo.func("sharded_file_accessor", "Shard.close", inline=True)
     cfg = fn.cfg()
     owner = enclosing_stmt_map(fn.node)
     # the with-open handle
@@ -593,7 +593,10 @@ def shard_index_last(repo, col):
                 "no single first write dominates all other writes",
                 node=with_stmt)
     else:
+        from .dataflow import single_defs, expand
         a = first[0].args[0] if first[0].args else None
+        if a is not None:
+            a = expand(a, single_defs(fn.node))
         txt = norm(a)
         zero = isinstance(a, ast.BinOp) and isinstance(a.op, ast.Mult) and any(
             isinstance(s, ast.Constant) and s.value in (b"\0", b"\x00")
@@ -654,8 +657,15 @@ def minishard_drain(repo, col):
     # flush_buffer: loop while next id parked
     fb = repo.func("sharded_file_accessor", "MiniShard.flush_buffer")
     loops = [s for s in stmts_of(fb.node) if isinstance(s, ast.While)]
-    okl = bool(loops) and norm(loops[0].test) in (
-        "self.next_cmc in self._chunk_buffer",)
+    okl = bool(loops) and (norm(loops[0].test) in (
+        "self.next_cmc in self._chunk_buffer",) or (
+        isinstance(loops[0].test, ast.Compare) and
+        isinstance(loops[0].test.ops[0], ast.In) and
+        norm(loops[0].test.comparators[0]) == "self._chunk_buffer" and
+        isinstance(loops[0].test.left, ast.Name) and all(
+            norm(d.value) == "self.next_cmc"
+            for d in local_defs(fb.node).get(loops[0].test.left.id, [])
+            if d.value is not None)))
     col.add(rule, fb, "while self.next_cmc in self._chunk_buffer", okl,
             "" if okl else "flush_buffer does not loop while the next "
             "expected id is parked", node=loops[0] if loops else None,
@@ -671,7 +681,7 @@ def minishard_drain(repo, col):
                 return True
             if isinstance(e, ast.Name):
                 vs = [d.value for d in fdefs.get(e.id, []) if d.value is not None]
-                return len(vs) == 1 and norm(vs[0]) == "self.next_cmc"
+                return bool(vs) and all(norm(v) == "self.next_cmc" for v in vs)
             return False
         okp = bool(pops) and bool(apps) and pops[0].args and \
             is_next(pops[0].args[0]) and \
@@ -682,7 +692,7 @@ def minishard_drain(repo, col):
                 "it was parked with", node=loops[0],
                 undecided=not okp and not (pops and apps))
     # store path: appended iff can_be_appended, else parked under its own id
-    st = repo.func("sharded_file_accessor", "MiniShard.store_cmc_chunk")
+    st = repo.func("sharded_file_accessor", "MiniShard.store_cmc_chunk", inline=True)
     parked = [n for n in walk_local(st.node) if isinstance(n, ast.Assign)
               and isinstance(n.targets[0], ast.Subscript)
               and "_chunk_buffer" in norm(n.targets[0].value)]
